@@ -106,27 +106,61 @@ func parseBehaviour(path string) ([]mstate, error) {
 // a tree with exactly n nodes: ChordList + k rests of 3 nodes (Rest, ChordValues, ChordValue) + one last rest with
 // extra values
 func treeWithNodes(n int) (ast.Node, bool) {
-	if n < 4 {
-		return nil, false
+	// which nodes of a tree the iterator hands out is its own business (no property counts them): the tree is chosen by
+	// counting what an ungated run of the real iterator yields
+	if t, ok := treeCache[n]; ok {
+		return t, t != nil
 	}
-	k := (n - 1) / 3
-	extra := (n - 1) % 3
-	var sb strings.Builder
-	for i := 0; i < k; i++ {
-		if i == k-1 && extra > 0 {
-			sb.WriteString("R[1" + strings.Repeat(",1", extra) + "] ")
-		} else {
-			sb.WriteString("R[1] ")
+	for k := 1; k <= n && !countHung; k++ {
+		for extra := 0; extra < 3; extra++ {
+			var sb strings.Builder
+			for i := 0; i < k; i++ {
+				if i == k-1 && extra > 0 {
+					sb.WriteString("R[1" + strings.Repeat(",1", extra) + "] ")
+				} else {
+					sb.WriteString("R[1] ")
+				}
+			}
+			lex := ast.NewLexer(strings.NewReader(sb.String()))
+			if ast.Parse(lex) != 0 || lex.Result == nil {
+				continue
+			}
+			if countNodes(lex.Result) == n {
+				treeCache[n] = lex.Result
+				return lex.Result, true
+			}
 		}
 	}
-	lex := ast.NewLexer(strings.NewReader(sb.String()))
-	if ast.Parse(lex) != 0 || lex.Result == nil {
-		return nil, false
+	treeCache[n] = nil
+	return nil, false
+}
+
+var (
+	treeCache = map[int]ast.Node{}
+	countHung bool // an ungated run over a small tree did not come back
+)
+
+func countNodes(tree ast.Node) int {
+	done := make(chan int, 1)
+	go func() {
+		c := 0
+		for range ast.NewIterVisitor().All(tree) {
+			c++
+		}
+		done <- c
+	}()
+	select {
+	case c := <-done:
+		return c
+	case <-time.After(gateWait):
+		countHung = true
+		return -1
 	}
-	return lex.Result, true
 }
 
 const gateWait = 5 * time.Second
+
+var gateTimeouts int
 
 var gateDead bool // the hook is never called: the remaining behaviours are not waited for
 
@@ -193,6 +227,9 @@ func replayBehaviour(states []mstate, n, stopAt int) rec {
 		case v := <-c:
 			return v, true
 		case <-time.After(gateWait):
+			if gateTimeouts++; gateTimeouts >= 3 {
+				gateDead = true // not worth five seconds a behaviour any more
+			}
 			return 0, false
 		}
 	}
@@ -305,7 +342,9 @@ func replayBehaviour(states []mstate, n, stopAt int) rec {
 		}
 	}
 	last := states[len(states)-1]
-	r["finished"] = last.ret
+	// "finished" = the replay itself ran to the end of a behaviour in which the iterator returns; a replay that broke off at a
+	// difference says nothing about how the real iterator would have ended (the what-level then rests on the plain runs)
+	r["finished"] = last.ret && r["diff"] == ""
 	r["returnedInModel"] = last.ret
 	r["realReturned"] = consFinished
 	// clean up: open the gate, let everything run to its end
@@ -320,6 +359,36 @@ func replayBehaviour(states []mstate, n, stopAt int) rec {
 		}
 	}
 	r["realGot"] = seen
+	return r
+}
+
+// plainRun: the what-level on its own, without any gate: the loop body stops at node stopAt (never when 0 or beyond n);
+// the iterator returns and the body has seen exactly the nodes up to there.
+func plainRun(n, stopAt int) rec {
+	r := rec{"kind": "plain", "n": n, "stopAt": stopAt, "realReturned": false, "realGot": 0}
+	tree, ok := treeWithNodes(n)
+	if !ok {
+		if countHung {
+			return r // the iterator does not come back from a plain walk: not returned
+		}
+		return rec{"kind": "skip"}
+	}
+	done := make(chan int, 1)
+	go func() {
+		seen := 0
+		for range ast.NewIterVisitor().All(tree) {
+			seen++
+			if seen == stopAt {
+				break
+			}
+		}
+		done <- seen
+	}()
+	select {
+	case v := <-done:
+		r["realReturned"], r["realGot"] = true, v
+	case <-time.After(gateWait):
+	}
 	return r
 }
 
@@ -424,6 +493,7 @@ func gateMode(out, aux string) {
 		}
 		n, _ := strconv.Atoi(f3[1])
 		stop, _ := strconv.Atoi(f3[2])
+		recs = append(recs, plainRun(n, stop))
 		files, _ := filepath.Glob(filepath.Join(f3[0], "*"))
 		sort.Strings(files)
 		for _, f := range files {
